@@ -390,4 +390,26 @@ def MState.init : MState := ⟨fun _ => DB.empty, fun _ => DB.empty⟩
 
 def mrun (T : Tree) (ops : List MOp) (s : MState) : MState := ops.foldl (mstep T) s
 
+/-! ## cached column values on the main connection and `Transaction.commit`
+
+Every level's instance on the main connection caches its own level's column values
+(`vc a i = some vals`; `none` = never loaded or expired, the next read SELECTs the row).  A read of
+an attribute through an instance of class `m` is answered by the level-`a` instance of its
+`_parent` chain.  `Transaction.commit` expires the main-side instance of every (class, id) in the
+transaction's cache or deleted log (`S`); a fetch inside the transaction puts the instance and its
+whole `_parent` chain into that cache (`txLevels`). -/
+
+abbrev VCache := Nat → Nat → Option (Nat → Val)
+def readCached (T : Tree) (db : DB) (vc : VCache) (m i a k : Nat) : Option Val :=
+  if attrOK T m a k then
+    match vc a i with
+    | some vals => some (vals k)
+    | none => (db a i).map (fun r => r.vals k)
+  else none
+def Coherent (db : DB) (vc : VCache) : Prop :=
+  ∀ a i vals, vc a i = some vals → ∃ r, db a i = some r ∧ ∀ k, r.vals k = vals k
+def commitExpire (vc : VCache) (S : Nat → Nat → Bool) : VCache :=
+  fun a i => if S a i then none else vc a i
+def txLevels (T : Tree) (m i : Nat) : Nat → Nat → Bool :=
+  fun a j => decide (j = i) && (T.anc m).contains a
 end SqlObjVerif.Inherit
